@@ -63,12 +63,37 @@ def closure_cmp(facts, creator, closure_path):
                     cdf = df_of(creator, facts)
                     p = operand_path(cdf, ops[idx])
                     cap_field = p[1][-1] if p and p[1] and p[1][-1] in ("first_token", "last_token") else (f[0] if len(f) == 1 else "<value>")
+                    if cap_field == "<value>" and len(f) > 1:
+                        # both bounds were hoisted together (`let (lo, hi) = (t.first_token, t.last_token)`): follow this component only
+                        from ..util import field_slice
+                        seen_, calls_, bins_ = field_slice(creator, ops[idx])
+                        names_ = set()
+                        for l_, fp_ in seen_:
+                            if len(fp_) >= 1 and creator.local_ty(l_).replace("&", "").replace("mut ", "").endswith("tablets::Tablet"):
+                                for bb_ in creator.live_blocks:
+                                    for s_ in creator.stmts(bb_):
+                                        if s_[0] != "A":
+                                            continue
+                                        import json as _j
+                                        for pl_ in _places_in(s_[2]):
+                                            if pl_[0] == l_:
+                                                fe_ = [e for e in pl_[1] if isinstance(e, list) and e[0] == "f"]
+                                                if fe_ and fe_[0][1] == fp_[0]:
+                                                    names_.add(fe_[0][2])
+                        names_ &= {"first_token", "last_token"}
+                        if len(names_) == 1 and not bins_ and not calls_:
+                            cap_field = next(iter(names_))
                     if cap_field == "<value>" and p and p[1] and p[1][-1] in ("0", "1"):
                         # a component of `tablet.range()`: which bound it is follows from Tablet::range's own body
                         sd = creator.single_def(p[0])
                         if sd and sd[0] == "call" and sd[2].is_("Tablet::range"):
                             cap_field = range_components(facts).get(int(p[1][-1]), "<value>")
     return (op, a[1], cap_field)
+
+
+def _places_in(rv):
+    from ..util import _rv_places
+    return _rv_places(rv)
 
 
 def range_components(facts):
@@ -342,12 +367,31 @@ def r5(ctx, facts):
         ab = facts.one(pat)
         adf = df_of(ab, facts)
         stores = [(bb, s) for bb in ab.live_blocks for s in ab.stmts(bb) if s[0] == "A" and s[1][1] and path_last(adf.canon.path(s[1])) == "has_unknown_replicas"]
-        good = bool(stores) and all(s[2][0] == "use" and s[2][1][0] == "k" and s[2][1][1] == "int" and int(s[2][1][3]) == 1 for _, s in stores)
+        def raises_only(s):
+            rv = s[2]
+            if rv[0] == "use" and rv[1][0] == "k" and rv[1][1] == "int" and int(rv[1][3]) == 1:
+                return True
+            # `flag |= cond`: the old value is one operand of the OR, so a set flag stays set
+            if rv[0] == "bin" and rv[1] == "BitOr":
+                return any(o[0] in ("c", "m") and adf.canon.path(o[1]) == adf.canon.path(s[1]) for o in rv[2:4])
+            return False
+
+        def or_operand_is_failed(s):
+            rv = s[2]
+            if not (rv[0] == "bin" and rv[1] == "BitOr"):
+                return False
+            for o in rv[2:4]:
+                if o[0] in ("c", "m") and adf.canon.path(o[1]) != adf.canon.path(s[1]):
+                    _, cs_, bins_ = backward_slice(ab, o)
+                    if any((c.decl or c.name or "").endswith("is_some") for c in cs_) and not bins_:
+                        return True
+            return False
+        good = bool(stores) and all(raises_only(s) for _, s in stores)
         r.instance("flag-only-raised:" + who, good, "%s::add_tablet may only set has_unknown_replicas = true (the flag may be falsely true, never falsely false: it is the only trigger of re-resolution)" % who,
                    ab.stmt_span(stores[0][1]) if stores else ab.span)
         for bb, s in stores:
             stt = adf.state_in.get(bb) or {}
-            r.instance("flag-raised-iff-failed:" + who, any(k[0] == "call" and in_set(v, {1}) and (ab.term(k[1])[1].get("def", "")).endswith("is_some") for k, v in stt.items()),
+            r.instance("flag-raised-iff-failed:" + who, or_operand_is_failed(s) or any(k[0] == "call" and in_set(v, {1}) and (ab.term(k[1])[1].get("def", "")).endswith("is_some") for k, v in stt.items()),
                        "the flag is raised where tablet.failed.is_some()", ab.stmt_span(s), nontrivial=False)
 
 
